@@ -184,6 +184,8 @@ class SymEval:
             return UNIT
         if k == "call":
             p = path_of(e[1]) or ""
+            if p.split("::")[-1] in ("panic_fmt", "panic", "begin_panic", "panic_display", "unreachable_display", "panic_explicit", "assert_failed"):
+                raise Panic(p.split("::")[-1])
             args = [self.ev(a, env) for a in e[2]]
             if p == "Some" and len(args) == 1:
                 return ("some", args[0])
